@@ -8,6 +8,7 @@ import (
 	"sort"
 
 	"github.com/pgavlin/dawn/diff"
+	"github.com/pgavlin/dawn/internal/verifhook"
 	"github.com/pgavlin/dawn/label"
 	"go.starlark.net/starlark"
 )
@@ -166,6 +167,7 @@ func (proj *Project) saveIndex() error {
 		return err
 	}
 	defer f.Close()
+	verifhook.Crash("index.afterCreate", "")
 
 	index := index{
 		Flags:   make([]*Flag, 0, len(proj.args)),
@@ -185,5 +187,6 @@ func (proj *Project) saveIndex() error {
 
 	enc := json.NewEncoder(f)
 	enc.SetIndent("", "    ")
+	defer verifhook.Crash("index.afterEncode", "")
 	return enc.Encode(index)
 }
